@@ -181,6 +181,22 @@ def execute(scn, L):
             return out
 
         if p != R.ACCEPT:
+            # the model does not follow this tree (an argument it classes
+            # as refusable, e.g. an unknown codec name): no byte oracle and
+            # no tree comparison - but what was serialised without error
+            # must at least load again
+            out.probe('model_rejects_but_serialised')
+
+            try:
+                L.DiffX.from_bytes(data)
+            except Exception as e:
+                out.violate('C05.own-output-rejected', 'unmodelled:%s:%s' % (
+                    type(e).__name__, exc_summary(e, L)['func']),
+                    {'exc': exc_summary(e, L),
+                     'op': {k: v for k, v in op.items()
+                            if k in ('op', 'encoding', 'line_endings')}})
+                return out
+
             out.discarded = 'model-rejects-but-serialised'
             return out
 
